@@ -10,6 +10,7 @@ import (
 	"fmt"
 	"net/http"
 	"strings"
+	"sync"
 	"time"
 
 	builderclient "github.com/attestantio/go-builder-client"
@@ -35,9 +36,24 @@ const c16Slot = 12345
 
 var c16ParentHash = phase0.Hash32{0x0a, 0x0b, 0x0c}
 
+var (
+	c16RelayKeysMu sync.Mutex
+	c16RelayKeys   = map[byte]*e2types.BLSPrivateKey{}
+	c16BLSOnce     sync.Once
+)
+
+// c16RelayKey is the BLS key of scripted relay i (the library is initialised once: its initialisation is
+// not safe next to a signature being made in another goroutine).
 func c16RelayKey(i byte) *e2types.BLSPrivateKey {
-	if err := e2types.InitBLS(); err != nil {
-		panic(err)
+	c16BLSOnce.Do(func() {
+		if err := e2types.InitBLS(); err != nil {
+			panic("c16 harness: BLS: " + err.Error())
+		}
+	})
+	c16RelayKeysMu.Lock()
+	defer c16RelayKeysMu.Unlock()
+	if sk, ok := c16RelayKeys[i]; ok {
+		return sk
 	}
 	b := make([]byte, 32)
 	b[31] = i
@@ -46,6 +62,7 @@ func c16RelayKey(i byte) *e2types.BLSPrivateKey {
 	if err != nil {
 		panic("c16 harness: relay key: " + err.Error())
 	}
+	c16RelayKeys[i] = sk
 	return sk
 }
 
@@ -57,8 +74,50 @@ func c16NowChainTime() *verifsupport.ChainTime {
 	return ct
 }
 
-// c16BidBody builds the relay's answer for a bid shape.
-func c16BidBody(kind string, ct *verifsupport.ChainTime, sk *e2types.BLSPrivateKey, signer *e2types.BLSPrivateKey) c16Answer {
+// c16SlotClock is the chain time of a long-lived instance: Begin(slot) makes that slot start now (call k
+// of a history is for slot c16Slot+k-1 and proposals are made when their slot starts).
+type c16SlotClock struct {
+	*verifsupport.ChainTime
+	smu    sync.RWMutex
+	starts map[phase0.Slot]time.Time
+}
+
+func c16NewSlotClock() *c16SlotClock {
+	return &c16SlotClock{ChainTime: c16NowChainTime(), starts: map[phase0.Slot]time.Time{}}
+}
+
+func (c *c16SlotClock) Begin(slot phase0.Slot) {
+	c.smu.Lock()
+	if _, ok := c.starts[slot]; !ok {
+		c.starts[slot] = time.Now()
+	}
+	c.smu.Unlock()
+}
+
+func (c *c16SlotClock) StartOfSlot(slot phase0.Slot) time.Time {
+	c.smu.RLock()
+	t, ok := c.starts[slot]
+	c.smu.RUnlock()
+	if ok {
+		return t
+	}
+	return c.ChainTime.StartOfSlot(slot)
+}
+
+// c16CallSlot is the slot of call k of a history.
+func c16CallSlot(k int) phase0.Slot { return phase0.Slot(c16Slot + k - 1) }
+
+// c16BidAnswer scripts the header endpoint of a relay: the bid is for the slot of the request.
+func c16BidAnswer(kind string, clock interface{ StartOfSlot(phase0.Slot) time.Time }, sk *e2types.BLSPrivateKey, signer *e2types.BLSPrivateKey) c16Answer {
+	return c16Answer{Func: func(r *http.Request) c16Answer {
+		var slot uint64
+		fmt.Sscanf(strings.TrimPrefix(r.URL.Path, "/eth/v1/builder/header/"), "%d", &slot)
+		return c16BidBody(kind, uint64(clock.StartOfSlot(phase0.Slot(slot)).Unix()), sk, signer)
+	}}
+}
+
+// c16BidBody builds the relay's answer for a bid shape; ts is the timestamp of the slot.
+func c16BidBody(kind string, ts uint64, sk *e2types.BLSPrivateKey, signer *e2types.BLSPrivateKey) c16Answer {
 	if a, ok := c16BadAnswer(kind); ok {
 		return a
 	}
@@ -79,7 +138,7 @@ func c16BidBody(kind string, ct *verifsupport.ChainTime, sk *e2types.BLSPrivateK
 	msg := &builderdeneb.BuilderBid{
 		Header: &deneb.ExecutionPayloadHeader{
 			ParentHash: parent, FeeRecipient: fee, BlockNumber: 100, GasLimit: 30000000, GasUsed: 21000,
-			Timestamp: uint64(ct.StartOfSlot(c16Slot).Unix()), ExtraData: []byte{}, BaseFeePerGas: uint256.NewInt(7),
+			Timestamp: ts, ExtraData: []byte{}, BaseFeePerGas: uint256.NewInt(7),
 			BlockHash: phase0.Hash32{0xb1}, TransactionsRoot: phase0.Root{0x71},
 		},
 		BlobKZGCommitments: []deneb.KZGCommitment{},
@@ -124,7 +183,50 @@ func c16BidBody(kind string, ct *verifsupport.ChainTime, sk *e2types.BLSPrivateK
 		Body: fmt.Sprintf(`{"version":%q,"data":%s}`, version, body)}
 }
 
+var (
+	c16BadPointOnce sync.Once
+	c16BadPointKey  phase0.BLSPubKey
+)
+
+// c16BadPoint is a relay public key of the right length (48 bytes) that is NOT a point of the curve:
+// the key of relay 1 with its last byte counted up until the BLS library refuses it.  Neither the
+// execution configuration decoder nor the builder client look at more than the length.
+func c16BadPoint() phase0.BLSPubKey {
+	c16BadPointOnce.Do(func() {
+		copy(c16BadPointKey[:], c16RelayKey(1).PublicKey().Marshal())
+		for i := 0; i < 255; i++ {
+			c16BadPointKey[47]++
+			if _, err := e2types.BLSPublicKeyFromBytes(c16BadPointKey[:]); err != nil {
+				return
+			}
+		}
+		panic("c16 harness: no 48 byte value near the relay key that is not a public key")
+	})
+	return c16BadPointKey
+}
+
+// c16RelayPubkey is the public key a configuration carries for the relay (Robustness!RelayKeys).
+func c16RelayPubkey(kind string) *phase0.BLSPubKey {
+	var pk phase0.BLSPubKey
+	switch kind {
+	case "none":
+		return nil
+	case "set":
+		copy(pk[:], c16RelayKey(1).PublicKey().Marshal())
+	case "badpoint":
+		pk = c16BadPoint()
+	case "other":
+		copy(pk[:], c16RelayKey(9).PublicKey().Marshal())
+	default:
+		panic("c16 harness: unknown relay key kind " + kind)
+	}
+	return &pk
+}
+
+// c16RelayAddress is the relay address string of a shape (Robustness!RelayAddrs); good is the URL of the
+// scripted relay.
 func c16RelayAddress(kind string, good string) string {
+	keyed := func(user string) string { return strings.Replace(good, "http://", "http://"+user+"@", 1) }
 	switch kind {
 	case "good":
 		return good
@@ -140,75 +242,124 @@ func c16RelayAddress(kind string, good string) string {
 		return "http://"
 	case "space":
 		return " "
+	case "keyed":
+		return keyed(c16RelayPubkey("set").String())
+	case "badkeyed":
+		return keyed(c16RelayPubkey("badpoint").String())
+	case "shortkeyed":
+		return keyed("0x01020304")
 	}
 	panic("c16 harness: unknown address kind " + kind)
 }
 
-func c16RunBuilderBid(ctx context.Context, sh map[string]string) c16Res {
+// c16BidInst is a builder-bid strategy (best / deadline) that lives as long as Vouch, with its two relays.
+type c16BidInst struct {
+	kind   string
+	strat  builderbid.Provider
+	clock  *c16SlotClock
+	relay1 *c16Server
+	relay2 *c16Server
+	gate   *c16Gate
+	mu     sync.Mutex
+	pcs    map[int]*beaconblockproposer.ProposerConfig
+}
+
+func c16NewBidInst(ctx context.Context, first map[string]string) c16Instance {
 	viper.Set("timeout", 2*time.Second)
-	ct := c16NowChainTime()
-	sk1, sk2, other := c16RelayKey(1), c16RelayKey(2), c16RelayKey(9)
-
-	relay1 := c16NewServer()
-	defer relay1.Close()
-	signer := sk1
-	if sh["bid"] == "badsig" {
-		signer = other
-	}
-	relay1.Set("/eth/v1/builder/header/", c16BidBody(sh["bid"], ct, sk1, signer))
-	relays := []*beaconblockproposer.RelayConfig{{
-		Address:      c16RelayAddress(sh["addr"], relay1.URL()),
-		FeeRecipient: bellatrix.ExecutionAddress{0x11, 0x22, 0x33},
-		GasLimit:     30000000,
-		MinValue:     decimal.Zero,
-	}}
-	if sh["pkcfg"] == "set" {
-		var pk phase0.BLSPubKey
-		copy(pk[:], sk1.PublicKey().Marshal())
-		relays[0].PublicKey = &pk
-	}
-	if sh["second"] == "good" {
-		relay2 := c16NewServer()
-		defer relay2.Close()
-		relay2.Set("/eth/v1/builder/header/", c16Answer{Func: func(_ *http.Request) c16Answer { return c16BidBody("valid", ct, sk2, sk2) }})
-		relays = append(relays, &beaconblockproposer.RelayConfig{
-			Address: relay2.URL(), FeeRecipient: bellatrix.ExecutionAddress{0x11, 0x22, 0x33}, GasLimit: 30000000, MinValue: decimal.Zero,
-		})
-	}
-	pc := &beaconblockproposer.ProposerConfig{FeeRecipient: bellatrix.ExecutionAddress{0x11, 0x22, 0x33}, Relays: relays}
-
-	var strat builderbid.Provider
+	// what is made once per process (accounts, BLS library, keys) is made before any slot begins: the
+	// deadline strategy counts from the start of the slot
+	_, _, _ = c16AccountPubkey(1), c16BadPoint(), c16RelayKey(9)
+	in := &c16BidInst{kind: first["strat"], clock: c16NewSlotClock(), relay1: c16NewServer(), relay2: c16NewServer(),
+		gate: &c16Gate{}, pcs: map[int]*beaconblockproposer.ProposerConfig{}}
+	in.relay1.Gate("/eth/v1/builder/header/", in.gate)
+	sk2 := c16RelayKey(2)
+	in.relay2.Set("/eth/v1/builder/header/", c16BidAnswer("valid", in.clock, sk2, sk2))
 	var err error
-	grace := 20 * time.Millisecond
-	switch sh["strat"] {
+	switch in.kind {
 	case "best":
-		strat, err = bestbuilderbid.New(ctx,
+		in.strat, err = bestbuilderbid.New(ctx,
 			bestbuilderbid.WithLogLevel(c16LogLevel()),
 			bestbuilderbid.WithMonitor(nullmetrics.New()),
 			bestbuilderbid.WithSpecProvider(mock.NewSpecProvider()),
 			bestbuilderbid.WithDomainProvider(mock.NewDomainProvider()),
-			bestbuilderbid.WithChainTime(ct),
+			bestbuilderbid.WithChainTime(in.clock),
 			bestbuilderbid.WithTimeout(300*time.Millisecond),
 			bestbuilderbid.WithReleaseVersion("verif"),
 		)
 	case "deadline":
-		strat, err = deadlinebuilderbid.New(ctx,
+		in.strat, err = deadlinebuilderbid.New(ctx,
 			deadlinebuilderbid.WithLogLevel(c16LogLevel()),
 			deadlinebuilderbid.WithMonitor(nullmetrics.New()),
 			deadlinebuilderbid.WithSpecProvider(mock.NewSpecProvider()),
 			deadlinebuilderbid.WithDomainProvider(mock.NewDomainProvider()),
-			deadlinebuilderbid.WithChainTime(ct),
-			deadlinebuilderbid.WithDeadline(time.Since(ct.StartOfSlot(c16Slot))+250*time.Millisecond),
+			deadlinebuilderbid.WithChainTime(in.clock),
+			deadlinebuilderbid.WithDeadline(250*time.Millisecond),
 			deadlinebuilderbid.WithBidGap(100*time.Millisecond),
 			deadlinebuilderbid.WithReleaseVersion("verif"),
 		)
-		grace = 150 * time.Millisecond
+	default:
+		panic("c16 harness: unknown builder bid strategy " + in.kind)
 	}
 	if err != nil {
 		panic("c16 harness: builder bid strategy: " + err.Error())
 	}
-	res, err := strat.BuilderBid(ctx, c16Slot, c16ParentHash, c16AccountPubkey(1), pc, map[phase0.BLSPubKey]*blockrelay.BuilderConfig{})
-	// goroutines the strategy started may still be decoding an answer: let them finish inside this scenario
+	return in
+}
+
+func (in *c16BidInst) Gate() *c16Gate { return in.gate }
+
+func (in *c16BidInst) Close() {
+	in.gate.Release()
+	in.relay1.Close()
+	in.relay2.Close()
+}
+
+// Prepare: what relay 1 answers, and the proposer configuration that comes with this auction.
+func (in *c16BidInst) Prepare(k int, sh map[string]string) {
+	sk1, other := c16RelayKey(1), c16RelayKey(9)
+	signer := sk1
+	if sh["bid"] == "badsig" {
+		signer = other
+	}
+	in.relay1.Set("/eth/v1/builder/header/", c16BidAnswer(sh["bid"], in.clock, sk1, signer))
+	relays := []*beaconblockproposer.RelayConfig{{
+		Address:      c16RelayAddress(sh["addr"], in.relay1.URL()),
+		FeeRecipient: bellatrix.ExecutionAddress{0x11, 0x22, 0x33},
+		GasLimit:     30000000,
+		MinValue:     decimal.Zero,
+		PublicKey:    c16RelayPubkey(sh["pkcfg"]),
+	}}
+	if sh["second"] != "none" {
+		second := &beaconblockproposer.RelayConfig{
+			Address: in.relay2.URL(), FeeRecipient: bellatrix.ExecutionAddress{0x11, 0x22, 0x33}, GasLimit: 30000000, MinValue: decimal.Zero,
+		}
+		if sh["second"] == "samekey" {
+			// a second relay that is configured with the same key as the first, asked in parallel
+			second.PublicKey = c16RelayPubkey(sh["pkcfg"])
+			switch sh["addr"] {
+			case "keyed", "badkeyed", "shortkeyed":
+				second.Address = c16RelayAddress(sh["addr"], in.relay2.URL())
+			}
+		}
+		relays = append(relays, second)
+	}
+	in.mu.Lock()
+	in.pcs[k] = &beaconblockproposer.ProposerConfig{FeeRecipient: bellatrix.ExecutionAddress{0x11, 0x22, 0x33}, Relays: relays}
+	in.mu.Unlock()
+}
+
+func (in *c16BidInst) Invoke(ctx context.Context, k int, _ map[string]string) c16Res {
+	in.mu.Lock()
+	pc := in.pcs[k]
+	in.mu.Unlock()
+	slot := c16CallSlot(k)
+	in.clock.Begin(slot)
+	res, err := in.strat.BuilderBid(ctx, slot, c16ParentHash, c16AccountPubkey(1), pc, map[phase0.BLSPubKey]*blockrelay.BuilderConfig{})
+	// goroutines the strategy started may still be decoding an answer: let them finish inside this call
+	grace := 20 * time.Millisecond
+	if in.kind == "deadline" {
+		grace = 150 * time.Millisecond
+	}
 	time.Sleep(grace)
 	if err != nil {
 		return c16Err(err.Error())
@@ -233,6 +384,5 @@ func c16RunBuilderBid(ctx context.Context, sh map[string]string) c16Res {
 }
 
 func init() {
-	c16Register("builderbid", c16RunBuilderBid)
-	_ = strings.TrimSpace
+	c16RegisterInstance("builderbid", c16NewBidInst)
 }
